@@ -1,8 +1,17 @@
-"""Debug helper: print the ast.unparse-normalised text of a function (for writing variants)."""
-import ast, sys
-from .frontend import Program
+"""Debug helper: print the ast.unparse-normalised text of a function (for writing variants).
+`python3-vt -m sa.show <module:qualname>` prints the text as variant locators see it (before canonicalisation);
+`python3-vt -m sa.show --canon <module:qualname>` prints the canonical form the rules analyse."""
+import ast, os, sys
+
+args = sys.argv[1:]
+if args and args[0] == "--canon":
+    args = args[1:]
+else:
+    os.environ["SA_SHOW_RAW"] = "1"
+from .frontend import Program  # noqa: E402
+
 P = Program()
-for key in sys.argv[1:]:
+for key in args:
     f = P.func(key)
     print(ast.unparse(f.node))
     print()
